@@ -24,18 +24,19 @@ Lemma remove_first_spec x l l' :
 Proof.
   revert l'. induction l as [|y l IH]; simpl; intros l'; [discriminate|].
   destruct (Nat.eqb_spec x y) as [->|Hne].
-  - intros H; inversion H; subst. repeat split; auto.
+  - intros H; inversion H; subst.
+    split; [auto|]. split; [auto|]. split.
     + intros z Hz [E|Hin]; auto. congruence.
-    + inversion H0; auto.
-    + inversion H0; auto.
+    + intros Hnd. inversion Hnd; auto.
   - destruct (remove_first x l) as [l1|] eqn:E; simpl; [|discriminate].
     intros H; inversion H; subst; clear H.
-    destruct (IH l1 eq_refl) as (A & B & C & D). repeat split.
-    + auto.
+    destruct (IH l1 eq_refl) as (A & B & C & D).
+    split; [auto|]. split; [|split].
     + intros z [<-|Hz]; auto.
     + intros z Hz [<-|Hin]; simpl; auto.
-    + inversion H; subst. destruct (D H3) as [D1 D2]. constructor; auto.
-    + inversion H; subst. destruct (D H3) as [D1 D2]. intros [E1|E1]; [congruence|auto].
+    + intros Hnd. inversion Hnd; subst. destruct (D H2) as [D1 D2]. split.
+      * constructor; auto.
+      * intros [E1|E1]; [congruence|auto].
 Qed.
 
 Lemma remove_customers_spec r : forall unv unv',
@@ -47,22 +48,25 @@ Lemma remove_customers_spec r : forall unv unv',
   (In O unv -> In O unv').
 Proof.
   induction r as [|n r IH]; simpl; intros unv unv' H Hnd.
-  - inversion H; subst. repeat split; auto; tauto.
+  - inversion H; subst. split; [auto|]. split; [tauto|]. split; [tauto|]. split; auto.
   - destruct (Nat.eqb_spec n 0) as [->|Hn].
-    + destruct (IH _ _ H Hnd) as (A & B & C & D & E). repeat split; auto.
-      * destruct H0 as [<-|Hin]; [congruence|]. apply (B k Hin H1).
-      * destruct H0 as [<-|Hin]; [congruence|]. apply (B k Hin H1).
-      * intros Hk. apply C; auto.
-      * intros Hk. apply C; auto.
+    + destruct (IH _ _ H Hnd) as (A & B & C & D & E).
+      split; [auto|]. split; [|split; [|split; auto]].
+      * intros k [<-|Hin] Hk; [congruence|]. apply (B k Hin Hk).
+      * intros k Hk. apply C. tauto.
     + destruct (remove_first n unv) as [u1|] eqn:E1; [|discriminate].
       destruct (remove_first_spec _ _ _ E1) as (R1 & R2 & R3 & R4).
       destruct (R4 Hnd) as [R5 R6].
-      destruct (IH _ _ H R5) as (A & B & C & D & E). repeat split; auto.
-      * destruct H0 as [<-|Hin]; auto. apply R2. apply (B k Hin H1).
-      * destruct H0 as [<-|Hin]; [|apply (B k Hin H1)]. intros Hk. apply R6. apply D; auto.
-      * intros Hk. apply R2. apply C; auto.
-      * intros Hk. apply C; auto. apply R3; auto. intros ->. apply H0; auto.
-      * intros Hk. apply E. apply R3; auto.
+      destruct (IH _ _ H R5) as (A & B & C & D & E).
+      split; [auto|]. split; [|split; [|split]].
+      * intros k [<-|Hin] Hk.
+        -- split; [auto|]. intros Hc. apply R6. apply D. exact Hc.
+        -- destruct (B k Hin Hk) as [B1 B2]. split; auto.
+      * intros k Hk. split.
+        -- intros Hc. apply R2. apply (proj1 (C k ltac:(tauto))). exact Hc.
+        -- intros Hc. apply (proj2 (C k ltac:(tauto))). apply R3; [intros ->; apply Hk; auto | exact Hc].
+      * intros k Hk. apply R2. apply D. exact Hk.
+      * intros H0. apply E. apply R3; auto.
 Qed.
 
 (* number of routes of a list (with multiplicity) that pass through node k *)
@@ -90,20 +94,20 @@ Proof.
   rewrite E in H1. destruct H1 as [<-|[]]. reflexivity.
 Qed.
 
+Lemma sumZ_all_zero {A} (g : A -> Z) (P : list A) : (forall r, In r P -> g r = 0) -> sumZ (map g P) = 0.
+Proof.
+  induction P as [|a P IH]; simpl; intros H; [reflexivity|]. fold (sumZ (map g P)).
+  rewrite (H a) by auto. rewrite IH; [reflexivity|]. intros r Hr. apply H. auto.
+Qed.
+
 Lemma sumZ_unique {A} (g : A -> Z) (P : list A) r0 :
   NoDup P -> In r0 P -> g r0 = 1 -> (forall r, In r P -> r <> r0 -> g r = 0) -> sumZ (map g P) = 1.
 Proof.
   induction P as [|a P IH]; simpl; intros Hnd Hin H1 H0; [tauto|].
-  inversion Hnd; subst. fold (sumZ (map g P)). destruct Hin as [->|Hin].
-  - rewrite H1. assert (sumZ (map g P) = 0); [|lia].
-    clear IH. induction P as [|b P IHP]; simpl; auto. fold (sumZ (map g P)).
-    rewrite (H0 b); [|simpl; auto|intros ->; apply H2; simpl; auto].
-    rewrite IHP; auto.
-    + intros Hc. apply H2. simpl; auto.
-    + inversion H3; auto.
-    + constructor; [intros Hc; apply H2; simpl; auto | inversion H3; auto].
-    + intros r Hr. apply H0. simpl in *. tauto.
-  - rewrite (H0 a); [|auto|intros ->; auto]. rewrite IH; auto.
+  inversion Hnd as [|? ? Hna HndP]; subst. fold (sumZ (map g P)). destruct Hin as [->|Hin].
+  - rewrite H1. rewrite sumZ_all_zero; [reflexivity|].
+    intros r Hr. apply H0; [auto|]. intros ->. exact (Hna Hr).
+  - rewrite (H0 a); [|auto|intros ->; exact (Hna Hin)]. rewrite IH; auto.
 Qed.
 
 (* ================= list.index on routes, the solution vector ================= *)
@@ -174,15 +178,18 @@ Proof.
   destruct added.
   - destruct (Hadd eq_refl) as (idxs & Hr & Hin & Hv & Hn & -> & _).
     rewrite Hres in Hr. inversion Hr; subst idxs.
-    split; [apply PInv_stored; auto|]. simpl. repeat split; auto.
+    split; [apply PInv_stored; auto|]. simpl.
+    split; [reflexivity|]. split; [reflexivity|]. split; [reflexivity|]. split; [|split].
     + intros s Hs. apply in_app_iff; auto.
-    + apply in_app_iff; right; left; reflexivity.
+    + intros _. split; [exact Hv|]. split; [exact Hin|]. apply in_app_iff; right; left; reflexivity.
     + intros ->. destruct Ha as [Ha _]. destruct (Ha eq_refl); discriminate.
-  - rewrite (Hnot eq_refl). repeat split; auto.
+  - rewrite (Hnot eq_refl).
+    split; [exact HP|]. split; [reflexivity|]. split; [reflexivity|]. split; [reflexivity|].
+    split; [auto|]. split; [|auto].
     intros ->. destruct Hf as [Hf _]. destruct (Hf eq_refl) as (idxs & Hr & Hv).
     rewrite Hres in Hr. inversion Hr; subst idxs.
     assert (Hir : in_range st r) by (apply valid_route_in_range; auto).
-    repeat split; auto.
+    split; [exact Hv|]. split; [exact Hir|].
     destruct (in_dec (list_eq_dec Nat.eq_dec) r (proutes st)) as [Hin|Hnin]; auto.
     exfalso. destruct Ha as [_ Ha]. assert (false = true); [|discriminate].
     apply Ha. split; auto. intros idxs Hr'. rewrite Hres in Hr'. inversion Hr'; subst. exact Hnin.
@@ -199,6 +206,18 @@ Record Good (st : pstate) (routes : list (list nat)) (us : list nat) : Prop := {
            occ k routes = if memb k us then O else 1%nat
 }.
 
+Lemma index_of_snoc_new x l : ~ In x l -> index_of x (l ++ [x]) = Some (length l).
+Proof.
+  induction l as [|y l IH]; simpl; intros H.
+  - rewrite Nat.eqb_refl. reflexivity.
+  - destruct (Nat.eqb_spec x y) as [->|Hne]; [exfalso; auto|].
+    rewrite IH by tauto. reflexivity.
+Qed.
+
+Lemma Inv_names_length g : Inv g -> length (names g) = length (nodes g).
+Proof. intros H. rewrite (inv_aligned _ H), map_length. reflexivity. Qed.
+
+
 Section PathFacts.
   Variable choose : kvdict -> nat.
   Variable dum_name : nat -> nat -> nat.
@@ -210,7 +229,7 @@ Section PathFacts.
     (In O unv -> In O unv1) /\ (forall x, In x unv1 -> In x unv).
   Proof.
     induction k as [|k IH]; simpl; intros st nc unv routes st1 unv1 routes1 H HG.
-    - inversion H; subst. repeat split; auto.
+    - inversion H; subst. split; [exact HG|]. do 3 (split; [reflexivity|]). split; auto.
     - destruct (generate_route choose st nc unv) as [r|e]; [|discriminate].
       destruct (add_route st (map ix r)) as [[st2 r'] [[feas added]|e]] eqn:Ea; [|discriminate].
       destruct HG as [G1 G2 G3 G4].
@@ -230,24 +249,15 @@ Section PathFacts.
               destruct (memb k0 unv) eqn:E1; destruct (memb k0 unv2) eqn:E2; try reflexivity; exfalso.
               * apply memb_In in E1. apply R3 in E1. apply memb_In in E1. congruence.
               * apply memb_In in E2. apply R3 in E2. apply memb_In in E2. congruence. }
-        repeat split; auto; try congruence.
+        split; [exact HG'|]. do 3 (split; [congruence|]). split.
+        * intros H0. apply E4. apply R5. exact H0.
+        * intros x Hx. apply R4. apply E5. exact Hx.
       + rewrite (Hnf eq_refl) in *.
         destruct (IH _ _ _ _ _ _ _ H) as (HG' & E1 & E2 & E3 & E4 & E5); [constructor; auto|].
-        repeat split; auto.
+        split; [exact HG'|]. do 3 (split; [assumption|]). split; assumption.
   Qed.
 
   (* ---------- one dummy node ---------- *)
-  Lemma index_of_snoc_new x l : ~ In x l -> index_of x (l ++ [x]) = Some (length l).
-  Proof.
-    induction l as [|y l IH]; simpl; intros H.
-    - rewrite Nat.eqb_refl. reflexivity.
-    - destruct (Nat.eqb_spec x y) as [->|Hne]; [exfalso; auto|].
-      rewrite IH by tauto. reflexivity.
-  Qed.
-
-  Lemma Inv_names_length g : Inv g -> length (names g) = length (nodes g).
-  Proof. intros H. rewrite (inv_aligned _ H), map_length. reflexivity. Qed.
-
   Lemma mf_dummy_spec st high dn u st' r :
     mf_dummy dum_name st high dn u = Ok (st', r) -> PInv st ->
     let n := length (nodes (pg st)) in
@@ -256,7 +266,7 @@ Section PathFacts.
     (forall s, In s (proutes st) -> In s (proutes st')) /\
     (exists d, nodes (pg st') = nodes (pg st) ++ [d]) /\ names (pg st') = names (pg st) ++ [nname (last (nodes (pg st')) dummy_node)].
   Proof.
-    unfold mf_dummy. intros H HP n. pose proof (pi_graph _ HP) as HI.
+    intros H HP n. unfold mf_dummy in H. pose proof (pi_graph _ HP) as HI.
     destruct (fresh_name dum_name (names (pg st)) u 0 (S (length (names (pg st))))) as [nm|]; [|discriminate].
     destruct (add_node (pg st) nm (- new_node_loading st u) 0 PInf) as [g1|e] eqn:E1; [|discriminate].
     destruct (index_of nm (names g1)) as [ni|] eqn:Eni; [|discriminate].
@@ -276,7 +286,7 @@ Section PathFacts.
     destruct Hnames1 as [Hn1 Hfresh].
     assert (Hni : ni = n).
     { rewrite Hn1, (index_of_snoc_new _ _ Hfresh) in Eni. inversion Eni.
-      unfold n. symmetry. apply Inv_names_length. exact HI. }
+      unfold n. apply Inv_names_length. exact HI. }
     assert (Hg4 : forall g4 b4,
                (if dict_mem (u, O) (arcs g3) then Ok (g3, true) else add_arc g3 un dn 0 0) = Ok (g4, b4) ->
                Inv g4 /\ nodes g4 = nodes g3 /\ names g4 = names g3).
@@ -332,11 +342,9 @@ Section PathFacts.
              ++ replace (memb n [O; n; u; O]) with true by (simpl; rewrite Nat.eqb_refl; destruct (Nat.eqb n 0); reflexivity).
                 destruct (memb n us) eqn:Em; auto. apply memb_In in Em.
                 assert (0 < n < n)%nat by (apply Hus; right; exact Em). lia.
-             ++ intros s Hs Hn. destruct (pi_routes _ G1) with (r := s) (j := O) as [_ _] eqn:?.
-                all: try (clear Heqa).
-                all: destruct (In_nth_error _ _ (G2 s Hs)) as [j Hj];
-                  destruct (pi_routes _ G1 _ _ Hj) as [Hir _];
-                  unfold in_range in Hir; rewrite Forall_forall in Hir; specialize (Hir _ Hn); fold n in Hir; lia.
+             ++ intros s Hs Hn. destruct (In_nth_error _ _ (G2 s Hs)) as [j Hj].
+                destruct (pi_routes _ G1 _ _ Hj) as [Hir _].
+                unfold in_range in Hir. rewrite Forall_forall in Hir. specialize (Hir _ Hn). fold n in Hir. lia.
           -- assert (Hk' : (0 < k < n)%nat) by lia. rewrite (G4 k Hk').
              simpl memb at 1.
              destruct (Nat.eqb_spec k u) as [->|Hku].
@@ -351,3 +359,556 @@ Section PathFacts.
       + split; [exact HG'|]. split; congruence.
   Qed.
 End PathFacts.
+
+(* ================= postcondition of the path heuristic ================= *)
+Lemma memb_seq k n : memb k (seq 0 n) = (k <? n)%nat.
+Proof.
+  destruct (Nat.ltb_spec k n) as [H|H].
+  - apply memb_In. apply in_seq. lia.
+  - apply memb_false_notIn. rewrite in_seq. lia.
+Qed.
+
+Lemma nth_repeat_lt {A} (a d : A) m k : (k < m)%nat -> nth k (repeat a m) d = a.
+Proof. revert k; induction m as [|m IH]; intros [|k] H; simpl; auto; try lia. apply IH. lia. Qed.
+
+Lemma Zqf_zero_matrix m x : Zqf m (Zmat_of (zero_matrix m)) x = 0.
+Proof.
+  unfold Zqf, qf. rewrite (sumZn_ext m _ (fun _ => 0)); [rewrite sumZn_const; lia|].
+  intros i _. rewrite (sumZn_ext m _ (fun _ => 0)); [rewrite sumZn_const; lia|].
+  intros j _. unfold Zmat_of, mat_of. rewrite zero_matrix_entry. lia.
+Qed.
+
+Section PathPost.
+  Variable choose : kvdict -> nat.
+  Variable dum_name : nat -> nat -> nat.
+
+  Theorem mf_path_post st high st' x :
+    PInv st -> mf_path choose dum_name st high = Ok (st', x) ->
+    PInv st' /\ pcap st' = pcap st /\ pinit st' = pinit st /\
+    length x = length (proutes st') /\ Forall is01 x /\
+    (0 < length (nodes (pg st')))%nat /\
+    forall k, (k < length (nodes (pg st')) - 1)%nat ->
+      sumZn (length (proutes st')) (fun j => cover st' k j * nth j x 0) = 1.
+  Proof.
+    intros HP. unfold mf_path.
+    set (n := length (nodes (pg st))).
+    destruct (Nat.eqb_spec n 0) as [|Hn0]; [discriminate|].
+    destruct (arb_loop choose (max_vehicles (pg st)) st _ (seq 0 n) []) as [[[st1 unv] routes]|e] eqn:Ea;
+      [|discriminate].
+    destruct (remove_first 0 unv) as [unv'|] eqn:Er; [|discriminate].
+    destruct (nth_error (names (pg st1)) 0) as [dn|]; [|discriminate].
+    destruct (dummy_loop dum_name st1 high dn unv' routes) as [[st2 routes']|e] eqn:Ed; [|discriminate].
+    destruct (mark routes' (proutes st2) (repeat 0 (length (pcosts st2)))) as [x2|e] eqn:Em; [|discriminate].
+    intros H; inversion H; subst st' x; clear H.
+    (* the greedy phase *)
+    assert (G0 : Good st [] (seq 0 n)).
+    { constructor; auto.
+      - intros r [].
+      - apply seq_NoDup.
+      - intros k Hk. fold n in Hk. rewrite memb_seq. destruct (Nat.ltb_spec k n); [reflexivity|lia]. }
+    destruct (arb_loop_good _ _ _ _ _ _ _ _ _ Ea G0) as (G1 & Eg & Ec & Ei & _ & Hsub).
+    destruct (remove_first_spec _ _ _ Er) as (R1 & R2 & R3 & R4).
+    destruct G1 as [P1 S1 N1 O1]. destruct (R4 N1) as [R5 R6].
+    assert (G1' : Good st1 routes unv').
+    { constructor; auto. intros k Hk. rewrite (O1 k Hk).
+      destruct (memb k unv) eqn:E1; destruct (memb k unv') eqn:E2; try reflexivity; exfalso.
+      - apply memb_In in E1. apply memb_false_notIn in E2. apply E2. apply R3; auto. lia.
+      - apply memb_In in E2. apply R2 in E2. apply memb_In in E2. congruence. }
+    assert (Hus : forall u, In u unv' -> (0 < u < length (nodes (pg st1)))%nat).
+    { intros u Hu. rewrite Eg. fold n. assert (Hin : In u (seq 0 n)) by (apply Hsub; apply R2; exact Hu).
+      apply in_seq in Hin. destruct (Nat.eq_dec u 0) as [->|]; [contradiction|lia]. }
+    destruct (dummy_loop_good _ _ _ _ _ _ _ _ Ed G1' Hus) as (G2 & Ec2 & Ei2).
+    destruct G2 as [P2 S2 _ O2].
+    (* the solution vector *)
+    assert (Hlen0 : length (repeat 0 (length (pcosts st2))) = length (proutes st2)).
+    { rewrite repeat_length. apply (pi_costs _ P2). }
+    destruct (mark_spec _ _ _ _ Em (pi_nodup _ P2) Hlen0) as (L1 & L2 & _ & L4).
+    { clear. induction (length (pcosts st2)); simpl; constructor; auto. left; reflexivity. }
+    assert (Hn2 : (0 < length (nodes (pg st2)))%nat).
+    { clear - Ed Eg Hn0 P1. subst n.
+      assert (Hmono : forall us st routes st' routes',
+                 dummy_loop dum_name st high dn us routes = Ok (st', routes') -> PInv st ->
+                 (length (nodes (pg st)) <= length (nodes (pg st')))%nat).
+      { induction us as [|u us IH]; simpl; intros s rs s' rs' H HPs.
+        - inversion H; subst. lia.
+        - destruct (mf_dummy dum_name s high dn u) as [[s1 r]|e] eqn:E; [|discriminate].
+          destruct (mf_dummy_spec _ _ _ _ _ _ _ E HPs) as (Hl & _ & P' & _).
+          specialize (IH _ _ _ _ H P'). lia. }
+      specialize (Hmono _ _ _ _ _ Ed P1). rewrite Eg in Hmono. lia. }
+    split; [exact P2|]. split; [congruence|]. split; [congruence|]. split; [exact L1|]. split; [exact L2|].
+    split; [exact Hn2|].
+    intros k Hk.
+    destruct (cover_spec st2 P2 Hn2) as (A & _ & _ & _ & _ & _ & Hcov).
+    set (P := proutes st2) in *.
+    set (g := fun r : list nat => (if memb (S k) r then 1 else 0) *
+                                  (if in_dec (list_eq_dec Nat.eq_dec) r routes' then 1 else 0)).
+    rewrite (sumZn_ext (length P) _ (fun j => g (nth j P []))).
+    2:{ intros j Hj. pose proof (nth_error_nth' P [] Hj) as Hnj.
+        rewrite (Hcov k j _ Hk Hnj). destruct (L4 j _ Hnj) as [La Lb]. unfold g.
+        destruct (in_dec (list_eq_dec Nat.eq_dec) (nth j P []) routes') as [Hin|Hnin].
+        - rewrite (La Hin). reflexivity.
+        - rewrite (Lb Hnin). rewrite nth_repeat. reflexivity. }
+    rewrite <- (sumZ_nth g P []).
+    assert (Hocc : occ (S k) routes' = 1%nat).
+    { rewrite (O2 (S k)) by lia. reflexivity. }
+    destruct (filter_one _ _ Hocc) as (r0 & Hr0 & Hm0 & Huniq).
+    apply (sumZ_unique g P r0 (pi_nodup _ P2) (S2 r0 Hr0)).
+    - unfold g. rewrite Hm0. destruct (in_dec (list_eq_dec Nat.eq_dec) r0 routes'); [reflexivity|contradiction].
+    - intros r _ Hne. unfold g. destruct (memb (S k) r) eqn:E1; [|reflexivity].
+      destruct (in_dec (list_eq_dec Nat.eq_dec) r routes') as [Hin|]; [|reflexivity].
+      exfalso. apply Hne. apply Huniq; auto.
+  Qed.
+
+  (* the same in terms of what get_constraint_data / get_objective_data report, and the QUBO values *)
+  Theorem mf_path_feasible st high st' x :
+    PInv st -> mf_path choose dum_name st high = Ok (st', x) ->
+    let n := length (nodes (pg st')) in
+    let m := length (proutes st') in
+    exists A,
+      constraint_data st' = Ok ((n - 1, m)%nat, A, repeat 1 (n - 1)%nat, zero_matrix m, 0) /\
+      num_variables st' = m /\ length x = m /\ Forall is01 x /\
+      Zbinary m (Zvec_of x) /\
+      Zfeasible (n - 1) m (Zmat_of A) (Zvec_of (repeat 1 (n - 1)%nat)) (Zmat_of (zero_matrix m)) (Zvec_of x).
+  Proof.
+    intros HP H n m.
+    destruct (mf_path_post _ _ _ _ HP H) as (P2 & _ & _ & L1 & L2 & Hn & Hrow). fold n m in L1, Hn, Hrow.
+    destruct (cover_spec st' P2 Hn) as (A & Emp & Ecd & Enum & _ & _ & _).
+    exists A. split; [exact Ecd|]. split; [exact Enum|]. split; [exact L1|]. split; [exact L2|].
+    assert (Hbin : Zbinary m (Zvec_of x)).
+    { intros i Hi. unfold Zvec_of, vec_of. rewrite Forall_forall in L2.
+      destruct (L2 (nth i x 0)) as [E|E]; [apply nth_In; lia | left; exact E | right; exact E]. }
+    split; [exact Hbin|]. split.
+    - intros k Hk. unfold Zmv, mv, Zvec_of, vec_of, Zmat_of, mat_of.
+      rewrite (nth_repeat_lt 1 0 _ _ Hk).
+      rewrite <- (Hrow k Hk). apply sumZn_ext. intros j _.
+      unfold cover. rewrite Emp. reflexivity.
+    - apply Zqf_zero_matrix.
+  Qed.
+End PathPost.
+
+(* ================= totality of the path heuristic ================= *)
+Lemma remove_first_In x l : In x l -> exists l', remove_first x l = Some l'.
+Proof.
+  induction l as [|y l IH]; simpl; [tauto|].
+  destruct (Nat.eqb_spec x y) as [->|Hne]; [eauto|].
+  intros [H|H]; [congruence|]. destruct (IH H) as [l' ->]. simpl. eauto.
+Qed.
+
+Definition nz (r : list nat) : list nat := filter (fun n => negb (Nat.eqb n 0)) r.
+
+Lemma nz_no_zero l : ~ In O l -> nz l = l.
+Proof.
+  induction l as [|a l IH]; simpl; intros H; [reflexivity|].
+  destruct (Nat.eqb_spec a 0) as [->|Hne]; [exfalso; auto|]. simpl. rewrite IH; auto.
+Qed.
+
+Lemma valid_route_nz st r : valid_route st r -> NoDup (nz r).
+Proof.
+  intros (Hlen & Hhd & Hlast & Hnd & Hnz & _).
+  destruct r as [|a t]; [simpl in Hlen; lia|]. simpl in Hhd. inversion Hhd; subst a.
+  destruct t as [|b t']; [simpl in Hlen; lia|].
+  unfold interior in *. cbn [tl] in *.
+  assert (Hl : last (b :: t') 1%nat = O) by exact Hlast.
+  rewrite (app_removelast_last 1%nat (l := b :: t')) by discriminate. rewrite Hl.
+  unfold nz. cbn [filter Nat.eqb negb]. rewrite filter_app. cbn [filter Nat.eqb negb]. rewrite app_nil_r.
+  fold (nz (removelast (b :: t'))). rewrite nz_no_zero; auto.
+Qed.
+
+Lemma remove_customers_ok r : forall unv,
+  NoDup (nz r) -> (forall k, In k r -> k <> O -> In k unv) -> exists unv', remove_customers r unv = Ok unv'.
+Proof.
+  induction r as [|n r IH]; simpl; intros unv Hnd Hin; [eauto|].
+  destruct (Nat.eqb_spec n 0) as [->|Hn].
+  - apply IH; auto.
+  - unfold nz in Hnd. simpl in Hnd. destruct (Nat.eqb_spec n 0); [contradiction|]. simpl in Hnd.
+    inversion Hnd as [|? ? Hnot Hnd']; subst.
+    destruct (remove_first_In n unv) as [u1 E1]; [apply Hin; auto|]. rewrite E1.
+    destruct (remove_first_spec _ _ _ E1) as (_ & _ & R3 & _).
+    apply IH; auto. intros k Hk Hk0. apply R3; [|apply Hin; auto].
+    intros ->. apply Hnot. apply filter_In. split; auto. destruct (Nat.eqb_spec n 0); [contradiction|reflexivity].
+Qed.
+
+Lemma mark_ok routes : forall stored x0,
+  (forall r, In r routes -> In r stored) -> exists x, mark routes stored x0 = Ok x.
+Proof.
+  induction routes as [|r rs IH]; simpl; intros stored x0 H; [eauto|].
+  destruct (route_index_In r stored) as [i ->]; [apply H; auto|]. apply IH. auto.
+Qed.
+
+Lemma kv_set_keys k v d x : In x (map fst (kv_set k v d)) -> x = k \/ In x (map fst d).
+Proof.
+  induction d as [|[k' v'] d IH]; simpl.
+  - intros [<-|[]]; auto.
+  - destruct (Nat.eqb_spec k k') as [->|Hne]; simpl.
+    + intros [<-|H]; auto.
+    + intros [<-|H]; auto. destruct (IH H); auto.
+Qed.
+
+Lemma add_arc_at g o d tm c i j :
+  index_of o (names g) = Some i -> index_of d (names g) = Some j ->
+  add_arc g o d tm c =
+  if base_filter (nth i (nodes g) dummy_node) (nth j (nodes g) dummy_node) tm
+  then Ok (mkGraph (names g) (nodes g)
+             (dict_set (i, j) (mkArc (nname (nth i (nodes g) dummy_node)) (nname (nth j (nodes g) dummy_node)) tm c) (arcs g)), true)
+  else Ok (g, false).
+Proof. intros Hi Hj. unfold add_arc, add_arc_gen. rewrite Hi, Hj. reflexivity. Qed.
+
+Lemma dict_get_set_other {V} k k' (v : V) d : k <> k' -> dict_get k (dict_set k' v d) = dict_get k d.
+Proof.
+  intros Hne. induction d as [|[k2 v2] d IH]; simpl.
+  - apply natpair_eqb_neq in Hne. rewrite Hne. reflexivity.
+  - destruct (natpair_eqb k' k2) eqn:E; simpl.
+    + apply natpair_eqb_eq in E; subst k2.
+      apply natpair_eqb_neq in Hne. rewrite Hne. reflexivity.
+    + destruct (natpair_eqb k k2); auto.
+Qed.
+
+Lemma dict_mem_set_same {V} k (v : V) d : dict_mem k (dict_set k v d) = true.
+Proof. unfold dict_mem. rewrite dict_get_set_same. reflexivity. Qed.
+
+Lemma dict_mem_set_mono {V} k k' (v : V) d : dict_mem k d = true -> dict_mem k (dict_set k' v d) = true.
+Proof.
+  intros H. destruct (natpair_eqb k k') eqn:E.
+  - apply natpair_eqb_eq in E; subst. apply dict_mem_set_same.
+  - apply natpair_eqb_neq in E. unfold dict_mem in *. rewrite dict_get_set_other; auto.
+Qed.
+
+(* pigeonhole for the dummy name *)
+Section Fresh.
+  Variable dum_name : nat -> nat -> nat.
+  Hypothesis dum_inj : forall u k k', dum_name u k = dum_name u k' -> k = k'.
+
+  Lemma fresh_name_None nms u fuel : forall k,
+    fresh_name dum_name nms u k fuel = None -> forall i, (k <= i < k + fuel)%nat -> In (dum_name u i) nms.
+  Proof.
+    induction fuel as [|f IH]; simpl; intros k H i Hi; [lia|].
+    destruct (memb (dum_name u k) nms) eqn:E; [|discriminate].
+    destruct (Nat.eq_dec i k) as [->|Hne]; [apply memb_In; exact E|].
+    apply (IH (S k) H). lia.
+  Qed.
+
+  Lemma fresh_name_Some nms u fuel : forall k nm,
+    fresh_name dum_name nms u k fuel = Some nm -> ~ In nm nms.
+  Proof.
+    induction fuel as [|f IH]; simpl; intros k nm H; [discriminate|].
+    destruct (memb (dum_name u k) nms) eqn:E.
+    - eapply IH; eauto.
+    - inversion H; subst. apply memb_false_notIn. exact E.
+  Qed.
+
+  Lemma fresh_name_exists nms u : exists nm, fresh_name dum_name nms u 0 (S (length nms)) = Some nm.
+  Proof.
+    destruct (fresh_name dum_name nms u 0 (S (length nms))) as [nm|] eqn:E; [eauto|]. exfalso.
+    pose proof (fresh_name_None _ _ _ _ E) as H.
+    set (l := map (dum_name u) (seq 0 (S (length nms)))).
+    assert (Hnd : NoDup l).
+    { unfold l. apply FinFun.Injective_map_NoDup; [|apply seq_NoDup]. intros a b Hab. eapply dum_inj; eauto. }
+    assert (Hincl : incl l nms).
+    { intros x Hx. unfold l in Hx. apply in_map_iff in Hx. destruct Hx as (i & <- & Hi).
+      apply in_seq in Hi. apply H. lia. }
+    pose proof (NoDup_incl_length Hnd Hincl) as Hlen. unfold l in Hlen.
+    rewrite map_length, seq_length in Hlen. lia.
+  Qed.
+End Fresh.
+
+(* hypotheses of the totality claim (they are preserved by the heuristic, see mf_path_total) *)
+Record PathHyp (st : pstate) : Prop := {
+  ph_depot : exists d rest, nodes (pg st) = d :: rest /\ ndemand d = 0 /\ nhi d = PInf;
+  ph_load : 0 <= pinit st <= pcap st;
+  ph_cust : forall k nd, (0 < k)%nat -> nth_error (nodes (pg st)) k = Some nd ->
+            - pcap st <= ndemand nd <= pcap st /\ ext_le (Fin 0) (nhi nd)
+}.
+
+Section PathTotal.
+  Variable choose : kvdict -> nat.
+  Variable dum_name : nat -> nat -> nat.
+  Hypothesis choose_mem : forall d, d <> [] -> In (choose d) (map fst d).
+  Hypothesis dum_inj : forall u k k', dum_name u k = dum_name u k' -> k = k'.
+
+  Lemma potential_keys st nc vf cur t l unv x :
+    In x (map fst (potential st nc vf cur t l unv)) -> In x unv.
+  Proof.
+    unfold potential.
+    assert (G : forall acc, In x (map fst (fold_left (fun d n =>
+                 match check_arc st t l (Z.of_nat cur) (Z.of_nat n) with
+                 | (true, t', _) => kv_set n (cost_of (pg st) cur n + nth n nc 0 + 10 * t' + nth n vf 0) d
+                 | (false, _, _) => d
+                 end) unv acc)) -> In x unv \/ In x (map fst acc)).
+    { induction unv as [|n unv IH]; simpl; intros acc H; [auto|].
+      destruct (IH _ H) as [H1|H1]; [auto|].
+      destruct (check_arc st t l (Z.of_nat cur) (Z.of_nat n)) as [[[|] t'] l']; [|auto].
+      destruct (kv_set_keys _ _ _ _ H1) as [->|H2]; auto. }
+    intros H. destruct (G [] H) as [H1|[]]. exact H1.
+  Qed.
+
+  Lemma gen_loop_ok st nc unv fuel : forall cur r t l vf,
+    exists ext, gen_loop choose st nc unv fuel cur r t l vf = Ok (r ++ ext) /\ forall x, In x ext -> In x unv.
+  Proof.
+    induction fuel as [|f IH]; intros cur r t l vf; cbn [gen_loop].
+    - exists []. rewrite app_nil_r. split; [reflexivity|intros x []].
+    - destruct (potential st nc vf cur t l unv) as [|kv0 rest] eqn:Ep.
+      + exists []. rewrite app_nil_r. split; [reflexivity|intros x []].
+      + assert (Hm : In (choose (kv0 :: rest)) (map fst (kv0 :: rest))) by (apply choose_mem; discriminate).
+        assert (Hu : In (choose (kv0 :: rest)) unv).
+        { apply (potential_keys st nc vf cur t l unv). rewrite Ep. exact Hm. }
+        apply memb_In in Hm. rewrite Hm. cbn [negb].
+        destruct (check_arc st t l (Z.of_nat cur) (Z.of_nat (choose (kv0 :: rest)))) as [[b t'] l'].
+        destruct (Nat.eqb (choose (kv0 :: rest)) 0).
+        * exists [choose (kv0 :: rest)]. split; [reflexivity|]. intros x [<-|[]]. exact Hu.
+        * destruct (IH (choose (kv0 :: rest)) (r ++ [choose (kv0 :: rest)]) t' l'
+                       (set_nth cur (kv_get (argmin kv0 rest) (kv0 :: rest)) vf)) as (ext & E & Hext).
+          exists (choose (kv0 :: rest) :: ext). rewrite E, <- app_assoc. split; [reflexivity|].
+          intros x [<-|Hx]; auto.
+  Qed.
+
+  Lemma generate_route_ok st nc unv :
+    exists ext, generate_route choose st nc unv = Ok (O :: ext) /\ forall x, In x ext -> In x unv.
+  Proof. unfold generate_route. apply (gen_loop_ok st nc unv _ O [O]). Qed.
+
+  Lemma add_route_ix_noerr st r :
+    PInv st -> nodes (pg st) <> [] ->
+    exists st1 r' feas added, add_route st (map ix r) = (st1, r', Ok (feas, added)).
+  Proof.
+    intros HP Hne. unfold add_route. cbv zeta.
+    destruct (snd (check_route st (map ix r))) as [[[f c] v]|x] eqn:E.
+    - destruct (f && negb (route_mem (fst (check_route st (map ix r))) (proutes st))); eauto.
+    - exfalso. destruct (check_route_err _ _ _ (pi_graph _ HP) Hne E) as (_ & nm & Hin & _).
+      apply in_map_iff in Hin. destruct Hin as (k & Hk & _). discriminate.
+  Qed.
+
+  Lemma arb_loop_ok k : forall st nc unv routes,
+    Good st routes unv -> nodes (pg st) <> [] ->
+    exists res, arb_loop choose k st nc unv routes = Ok res.
+  Proof.
+    induction k as [|k IH]; intros st nc unv routes HG Hne; [simpl; eauto|].
+    destruct (generate_route_ok st nc unv) as (ext & Eg & Hext).
+    destruct (add_route_ix_noerr st (O :: ext) (gd_inv _ _ _ HG) Hne) as (st1 & r' & feas & added & Ea).
+    destruct (add_route_ix _ _ _ _ _ _ (gd_inv _ _ _ HG) Ea) as (_ & Egr & _ & _ & _ & Hfeas & Hnf).
+    destruct feas.
+    - destruct (Hfeas eq_refl) as (Hv & _ & _).
+      destruct (remove_customers_ok (O :: ext) unv (valid_route_nz _ _ Hv)) as [unv' Er].
+      { intros x [<-|Hx] Hx0; [congruence|auto]. }
+      assert (E1 : arb_loop choose 1 st nc unv routes = Ok (st1, unv', routes ++ [O :: ext])).
+      { simpl. rewrite Eg, Ea, Er. reflexivity. }
+      destruct (arb_loop_good choose _ _ _ _ _ _ _ _ E1 HG) as (HG1 & Eg1 & _).
+      destruct (IH st1 nc unv' (routes ++ [O :: ext]) HG1) as [res Eres]; [congruence|].
+      exists res. simpl. rewrite Eg, Ea, Er. exact Eres.
+    - rewrite (Hnf eq_refl) in Ea.
+      destruct (IH st nc unv routes HG Hne) as [res Eres].
+      exists res. simpl. rewrite Eg, Ea. exact Eres.
+  Qed.
+
+  Lemma new_node_loading_bounds st u dem :
+    0 <= pinit st <= pcap st -> ndemand (node_at (pg st) u) = dem -> - pcap st <= dem <= pcap st ->
+    let nnl := new_node_loading st u in
+    - pcap st <= nnl <= pcap st /\ 0 <= pinit st + nnl <= pcap st /\ 0 <= pinit st + nnl - dem <= pcap st.
+  Proof.
+    intros Hi Hd Hb. unfold new_node_loading. rewrite Hd.
+    destruct (pinit st + - dem <? 0) eqn:E1; [lia|].
+    destruct (pcap st <? pinit st + - dem) eqn:E2; lia.
+  Qed.
+
+  Lemma ext_le_max a b h : ext_le (Fin a) h -> ext_le (Fin b) h -> ext_le (Fin (Z.max a b)) h.
+  Proof. destruct h; unfold ext_le; [lia|auto]. Qed.
+
+  Lemma mf_dummy_ok st high dn u :
+    PInv st -> PathHyp st -> nth_error (names (pg st)) 0 = Some dn ->
+    (0 < u < length (nodes (pg st)))%nat ->
+    exists st' r, mf_dummy dum_name st high dn u = Ok (st', r) /\ PathHyp st'.
+  Proof.
+    intros HP [[d0 [rest [Hnodes [Hd0 Hh0]]]] Hload Hcust] Hdn Hu.
+    pose proof (pi_graph _ HP) as HI.
+    set (g := pg st) in *. set (n := length (nodes g)) in *.
+    assert (Hlen : length (names g) = n) by (apply Inv_names_length; exact HI).
+    assert (Hnames : names g = dn :: map nname rest).
+    { rewrite (inv_aligned _ HI), Hnodes in *. simpl in *. inversion Hdn; reflexivity. }
+    destruct (fresh_name_exists dum_name dum_inj (names g) u) as [nm Enm].
+    pose proof (fresh_name_Some _ _ _ _ _ _ Enm) as Hfresh.
+    set (nd_u := nth u (nodes g) dummy_node).
+    assert (Hndu : nth_error (nodes g) u = Some nd_u) by (apply nth_error_nth'; lia).
+    destruct (Hcust u nd_u ltac:(lia) Hndu) as [Hdem Hhi].
+    pose proof (new_node_loading_bounds st u (ndemand nd_u) Hload eq_refl Hdem) as Hnnl.
+    set (nnl := new_node_loading st u) in *. cbv zeta in Hnnl.
+    set (new := mkNode nm (- nnl) 0 PInf).
+    set (g1 := mkGraph (names g ++ [nm]) (nodes g ++ [new]) (arcs g)).
+    assert (E1 : add_node g nm (- nnl) 0 PInf = Ok g1).
+    { unfold add_node. apply memb_false_notIn in Hfresh. rewrite Hfresh. reflexivity. }
+    assert (HI1 : Inv g1) by (eapply add_node_inv; eauto).
+    assert (Eni : index_of nm (names g1) = Some n).
+    { cbn [names g1]. rewrite index_of_snoc_new by exact Hfresh. rewrite Hlen. reflexivity. }
+    set (un := nname nd_u).
+    assert (Eun : nth_error (names g1) u = Some un).
+    { cbn [names g1]. rewrite nth_error_app1 by lia. rewrite (inv_aligned _ HI), nth_error_map, Hndu. reflexivity. }
+    assert (Edn1 : index_of dn (names g1) = Some O).
+    { cbn [names g1]. rewrite Hnames. simpl. rewrite Nat.eqb_refl. reflexivity. }
+    assert (Eun1 : index_of un (names g1) = Some u).
+    { apply index_of_nth_error_NoDup; [apply (inv_nodup _ HI1)|exact Eun]. }
+    assert (N0 : nth 0 (nodes g1) dummy_node = d0) by (cbn [nodes g1]; rewrite Hnodes; reflexivity).
+    assert (Nn : nth n (nodes g1) dummy_node = new).
+    { cbn [nodes g1]. rewrite app_nth2 by (unfold n; lia). unfold n. rewrite Nat.sub_diag. reflexivity. }
+    assert (Nu : nth u (nodes g1) dummy_node = nd_u) by (cbn [nodes g1]; rewrite app_nth1 by lia; reflexivity).
+    (* first arc: depot -> new *)
+    set (a1 := mkArc (nname d0) (nname new) 0 high).
+    set (g2 := mkGraph (names g1) (nodes g1) (dict_set (O, n) a1 (arcs g1))).
+    assert (E2 : add_arc g1 dn nm 0 high = Ok (g2, true)).
+    { rewrite (add_arc_at g1 dn nm 0 high O n Edn1 Eni). rewrite N0, Nn. reflexivity. }
+    (* second arc: new -> u *)
+    set (a2 := mkArc (nname new) (nname nd_u) 0 high).
+    set (g3 := mkGraph (names g1) (nodes g1) (dict_set (n, u) a2 (arcs g2))).
+    assert (E3 : add_arc g2 nm un 0 high = Ok (g3, true)).
+    { rewrite (add_arc_at g2 nm un 0 high n u Eni Eun1). cbn [nodes g2]. rewrite Nn, Nu.
+      unfold base_filter. cbn [nlo new]. apply ext_leb_le in Hhi. change (0 + 0) with 0. rewrite Hhi. reflexivity. }
+    (* third arc: u -> depot, if absent *)
+    assert (E4 : exists g4 b4,
+               (if dict_mem (u, O) (arcs g3) then Ok (g3, true) else add_arc g3 un dn 0 0) = Ok (g4, b4) /\
+               names g4 = names g1 /\ nodes g4 = nodes g1 /\ Inv g4 /\
+               dict_get (O, n) (arcs g4) = Some a1 /\ dict_get (n, u) (arcs g4) = Some a2 /\
+               dict_mem (u, O) (arcs g4) = true).
+    { assert (HI2 : Inv g2) by (eapply add_arc_gen_inv; [exact HI1|exact E2]).
+      assert (HI3 : Inv g3) by (eapply add_arc_gen_inv; [exact HI2|exact E3]).
+      assert (G1 : dict_get (O, n) (arcs g3) = Some a1).
+      { cbn [arcs g3 g2]. rewrite dict_get_set_other by (intros H; inversion H; lia).
+        apply dict_get_set_same. }
+      assert (G2 : dict_get (n, u) (arcs g3) = Some a2) by (cbn [arcs g3]; apply dict_get_set_same).
+      destruct (dict_mem (u, O) (arcs g3)) eqn:Em.
+      - exists g3, true. repeat (split; [reflexivity || assumption|]). assumption.
+      - set (a3 := mkArc (nname nd_u) (nname d0) 0 0).
+        exists (mkGraph (names g1) (nodes g1) (dict_set (u, O) a3 (arcs g3))), true.
+        assert (E : add_arc g3 un dn 0 0 = Ok (mkGraph (names g1) (nodes g1) (dict_set (u, O) a3 (arcs g3)), true)).
+        { rewrite (add_arc_at g3 un dn 0 0 u O Eun1 Edn1). cbn [nodes g3]. rewrite Nu, N0.
+          unfold base_filter. rewrite Hh0. destruct (nlo nd_u + 0); reflexivity. }
+        split; [exact E|]. split; [reflexivity|]. split; [reflexivity|].
+        split; [eapply add_arc_gen_inv; [exact HI3|exact E]|].
+        cbn [arcs]. split; [|split].
+        + rewrite dict_get_set_other by (intros H; inversion H; lia). exact G1.
+        + rewrite dict_get_set_other by (intros H; inversion H; lia). exact G2.
+        + apply dict_mem_set_same. }
+    destruct E4 as (g4 & b4 & E4 & M4 & N4 & HI4 & A1 & A2 & A3).
+    set (st4 := with_graph st g4).
+    assert (HP4 : PInv st4).
+    { apply PInv_with_graph; auto. rewrite N4. cbn [nodes g1]. rewrite app_length. fold g. lia. }
+    assert (Hne4 : nodes (pg st4) <> []).
+    { cbn [pg st4 with_graph]. rewrite N4. cbn [nodes g1]. rewrite Hnodes. discriminate. }
+    destruct (add_route_ix_noerr st4 [O; n; u; O] HP4 Hne4) as (st5 & r5 & feas & added & Ea).
+    assert (Hvalid : valid_route st4 [O; n; u; O]).
+    { assert (T1 : node_at g4 n = new) by (unfold node_at; rewrite N4; exact Nn).
+      assert (T2 : node_at g4 u = nd_u) by (unfold node_at; rewrite N4; exact Nu).
+      assert (T3 : node_at g4 O = d0) by (unfold node_at; rewrite N4; exact N0).
+      unfold valid_route. cbn [pg st4 with_graph pcap pinit tl length hd_error].
+      split; [lia|]. split; [reflexivity|]. split; [reflexivity|].
+      split; [cbn; constructor; [intros [H|[]]; lia | constructor; [tauto|constructor]]|].
+      split; [cbn; intros [H|[H|[]]]; lia|].
+      apply (proj1 (walk_ok_iff st4 O 0 (pinit st) [n; u; O])).
+      cbn [walk_ok]. unfold step_ok, next_time, next_load, tt_of. cbn [pg st4 with_graph pcap].
+      rewrite A1, A2, T1, T2, T3. cbn [att a1 a2 nlo ndemand nhi new]. rewrite Hd0, Hh0.
+      split; [|split; [|split; [|exact I]]].
+      - split; [unfold dict_mem; rewrite A1; reflexivity|]. split; [exact I|]. lia.
+      - split; [unfold dict_mem; rewrite A2; reflexivity|]. split; [|lia].
+        replace (Z.max (0 + 0) 0 + 0) with 0 by lia.
+        apply ext_le_max; [exact Hhi|]. apply (inv_windows _ HI). eapply nth_error_In; exact Hndu.
+      - split; [exact A3|]. split; [exact I|]. lia. }
+    destruct (add_route_spec _ _ _ _ _ _ (pi_graph _ HP4) Ea) as (Hf & _).
+    assert (feas = true).
+    { apply Hf. exists [O; n; u; O]. split; [apply resolve_map_ix|exact Hvalid]. }
+    subst feas.
+    destruct (add_route_ix _ _ _ _ _ _ HP4 Ea) as (_ & Eg5 & Ec5 & Ei5 & _).
+    exists st5, [O; n; u; O]. split.
+    - unfold mf_dummy. fold g. rewrite Enm. fold nnl. rewrite E1, Eni, Eun, E2, E3, E4.
+      fold st4. rewrite Ea. reflexivity.
+    - constructor.
+      + rewrite Eg5. cbn [pg st4 with_graph]. rewrite N4. cbn [nodes g1]. rewrite Hnodes.
+        exists d0, (rest ++ [new]). auto.
+      + rewrite Ec5, Ei5. exact Hload.
+      + rewrite Eg5, Ec5. cbn [pg st4 with_graph pcap]. rewrite N4. cbn [nodes g1].
+        intros k nd Hk Hnth.
+        destruct (Nat.lt_ge_cases k n) as [Hlt|Hge].
+        * rewrite nth_error_app1 in Hnth by exact Hlt. apply (Hcust k nd Hk Hnth).
+        * rewrite nth_error_app2 in Hnth by exact Hge. fold n in Hnth.
+          destruct (k - n)%nat as [|q] eqn:Eq; simpl in Hnth; [|destruct q; discriminate].
+          inversion Hnth; subst nd. cbn [ndemand nhi new]. split; [lia|exact I].
+  Qed.
+
+  Lemma dummy_loop_ok high dn us : forall st routes,
+    PInv st -> PathHyp st -> nth_error (names (pg st)) 0 = Some dn ->
+    (forall u, In u us -> (0 < u < length (nodes (pg st)))%nat) ->
+    exists st' routes', dummy_loop dum_name st high dn us routes = Ok (st', routes') /\ PathHyp st'.
+  Proof.
+    induction us as [|u us IH]; simpl; intros st routes HP HH Hdn Hus; [eauto|].
+    destruct (mf_dummy_ok st high dn u HP HH Hdn) as (st1 & r & Ed & HH1); [apply Hus; auto|].
+    rewrite Ed.
+    destruct (mf_dummy_spec _ _ _ _ _ _ _ Ed HP) as (Hl & _ & P1 & _ & _ & _ & _ & _ & Hn).
+    apply IH; auto.
+    - rewrite Hn. destruct (names (pg st)); [discriminate|exact Hdn].
+    - intros u' Hu'. rewrite Hl. assert (0 < u' < length (nodes (pg st)))%nat by (apply Hus; auto). lia.
+  Qed.
+
+  (* the heuristic never raises under PathHyp, and PathHyp holds again afterwards *)
+  Theorem mf_path_total st high :
+    PInv st -> PathHyp st ->
+    exists st' x, mf_path choose dum_name st high = Ok (st', x) /\ PathHyp st'.
+  Proof.
+    intros HP HH. unfold mf_path.
+    destruct (ph_depot _ HH) as (d0 & rest & Hnodes & _).
+    set (n := length (nodes (pg st))).
+    assert (Hn : n <> O) by (unfold n; rewrite Hnodes; discriminate).
+    destruct (Nat.eqb_spec n 0) as [|_]; [contradiction|].
+    assert (G0 : Good st [] (seq 0 n)).
+    { constructor; auto.
+      - intros r [].
+      - apply seq_NoDup.
+      - intros k Hk. fold n in Hk. rewrite memb_seq. destruct (Nat.ltb_spec k n); [reflexivity|lia]. }
+    assert (Hne : nodes (pg st) <> []) by (rewrite Hnodes; discriminate).
+    destruct (arb_loop_ok (max_vehicles (pg st)) st (set_nth 0 (max_default0 (pcosts st)) (repeat 0 n)) (seq 0 n) [] G0 Hne)
+      as [[[st1 unv] routes] Ea].
+    rewrite Ea.
+    destruct (arb_loop_good choose _ _ _ _ _ _ _ _ Ea G0) as (G1 & Eg & Ec & Ei & H0 & Hsub).
+    destruct (remove_first_In 0 unv) as [unv' Er]; [apply H0; apply in_seq; lia|]. rewrite Er.
+    destruct (remove_first_spec _ _ _ Er) as (_ & R2 & _ & R4).
+    destruct (R4 (gd_nodup _ _ _ G1)) as [_ R6].
+    assert (Hdn : exists dn, nth_error (names (pg st1)) 0 = Some dn).
+    { rewrite Eg, (inv_aligned _ (pi_graph _ HP)), Hnodes. simpl. eauto. }
+    destruct Hdn as [dn Hdn]. rewrite Hdn.
+    assert (HH1 : PathHyp st1).
+    { destruct HH as [A B C]. constructor; rewrite ?Eg, ?Ec, ?Ei; auto. }
+    destruct (dummy_loop_ok high dn unv' st1 routes (gd_inv _ _ _ G1) HH1 Hdn) as (st2 & routes' & Ed & HH2).
+    { intros u Hu. rewrite Eg. fold n. assert (Hin : In u (seq 0 n)) by (apply Hsub; apply R2; exact Hu).
+      apply in_seq in Hin. destruct (Nat.eq_dec u 0) as [->|]; [contradiction|lia]. }
+    rewrite Ed.
+    assert (G1' : Good st1 routes unv').
+    { destruct G1 as [P1 S1 N1 O1]. destruct (remove_first_spec _ _ _ Er) as (_ & _ & R3 & R4').
+      destruct (R4' N1) as [R5 _].
+      constructor; auto. intros k Hk. rewrite (O1 k Hk).
+      destruct (memb k unv) eqn:E1; destruct (memb k unv') eqn:E2; try reflexivity; exfalso.
+      - apply memb_In in E1. apply memb_false_notIn in E2. apply E2. apply R3; auto. lia.
+      - apply memb_In in E2. apply R2 in E2. apply memb_In in E2. congruence. }
+    assert (Hus : forall u, In u unv' -> (0 < u < length (nodes (pg st1)))%nat).
+    { intros u Hu. rewrite Eg. fold n. assert (Hin : In u (seq 0 n)) by (apply Hsub; apply R2; exact Hu).
+      apply in_seq in Hin. destruct (Nat.eq_dec u 0) as [->|]; [contradiction|lia]. }
+    destruct (dummy_loop_good _ _ _ _ _ _ _ _ Ed G1' Hus) as (G2 & _ & _).
+    destruct (mark_ok routes' (proutes st2) (repeat 0 (length (pcosts st2))) (gd_stored _ _ _ G2)) as [x Em].
+    rewrite Em. exists st2, x. split; [reflexivity|exact HH2].
+  Qed.
+End PathTotal.
+
+(* the states built by the correspondence harness are reachable states *)
+Lemma PInv_pstate_of ops cap init rs : PInv (pstate_of ops cap init rs).
+Proof.
+  unfold pstate_of. apply prun_stored. constructor; cbn [pg proutes pcosts pvisited].
+  - apply run_inv. apply Inv_empty.
+  - constructor.
+  - reflexivity.
+  - reflexivity.
+  - intros [|j] r0; discriminate.
+Qed.
+
+Lemma path_hypb_sound st : path_hypb st = true -> PathHyp st.
+Proof.
+  unfold path_hypb. destruct (nodes (pg st)) as [|d rest] eqn:En; [discriminate|].
+  rewrite !andb_true_iff. intros ((((H1 & H2) & H3) & H4) & H5).
+  constructor.
+  - exists d, rest. split; [exact En|]. split; [lia|]. destruct (nhi d); [discriminate|reflexivity].
+  - lia.
+  - intros k nd Hk Hnth. rewrite En in Hnth. destruct k as [|k]; [lia|]. simpl in Hnth.
+    rewrite forallb_forall in H5. specialize (H5 nd (nth_error_In _ _ Hnth)).
+    rewrite !andb_true_iff in H5. destruct H5 as ((A & B) & C). apply ext_leb_le in C. split; [lia|exact C].
+Qed.
